@@ -64,7 +64,8 @@ def classify(pid: str, clause: str, s: dict, l: int) -> str:
     else:
         site = f"{ev['op']}({kind(ev['a'])})"
     extra = (":" + ev["exc"]) if ev["exc"] else ""
-    if (clause in ("and_table", "or_table", "evaluate_vs_reference", "reparse_table") or ev["op"] == "law") and _only_inlist_substring_envs(s, l, clause):
+    if (clause in ("and_table", "or_table", "evaluate_vs_reference", "reparse_table", "only_not_implied", "only_changes_meaning", "exclude_changes_meaning")
+            or ev["op"] == "law") and _only_inlist_substring_envs(s, l, clause):
         # evaluate() reads `python_version in "..."` as substring containment (PEP 508), the algebra
         # reads the literal as a set of release series: DESIGN section 6 item 12
         return f"{pid}:in-list:env-substring-of-list-not-element"
@@ -84,8 +85,11 @@ def _only_inlist_substring_envs(s: dict, l: int, clause: str) -> bool:
         tab, exp = s["events"][ev["a"] - 1]["table"], s["events"][ev["b"] - 1]["table"]
     elif clause == "evaluate_vs_reference":
         exp = ev["ref"]
-    elif clause == "reparse_table":
+    elif clause in ("reparse_table", "only_changes_meaning", "exclude_changes_meaning"):
         exp = s["events"][ev["a"] - 1]["table"]
+    elif clause == "only_not_implied":
+        ta = s["events"][ev["a"] - 1]["table"]
+        exp = [t or a for t, a in zip(tab, ta)]          # differs from tab exactly where the operand holds and the result does not
     else:
         ta, tb = s["events"][ev["a"] - 1]["table"], s["events"][ev["b"] - 1]["table"]
         exp = [(x and y) if clause == "and_table" else (x or y) for x, y in zip(ta, tb)]
